@@ -48,6 +48,53 @@ func (s *sweepReader) Read(p []byte) (int, error) {
 	return 4, nil
 }
 
+// longReader serves a list of words, chunk bytes at a time (0 = whole request).
+type longReader struct {
+	b     []byte
+	pos   int
+	chunk int
+	reads int
+	dry   bool
+}
+
+func (r *longReader) Read(p []byte) (int, error) {
+	r.reads++
+	n := len(p)
+	if r.chunk > 0 && n > r.chunk {
+		n = r.chunk
+	}
+	if r.pos+n > len(r.b) {
+		r.dry = true
+		for i := range p[:n] {
+			p[i] = 0
+		}
+		return n, nil
+	}
+	copy(p, r.b[r.pos:r.pos+n])
+	r.pos += n
+	return n, nil
+}
+
+// drawLong runs one bounded draw on a word list; returns result, words consumed.
+func drawLong(n uint32, words []uint32, chunk int) (res uint32, used int, ok bool) {
+	lr := &longReader{b: make([]byte, 4*len(words)), chunk: chunk}
+	for i, w := range words {
+		binary.BigEndian.PutUint32(lr.b[4*i:], w)
+	}
+	old := rand.Reader
+	rand.Reader = lr
+	defer func() {
+		rand.Reader = old
+		if recover() != nil {
+			ok = false
+		}
+	}()
+	res = spg.VerifRandomUint32n(n)
+	return res, lr.pos / 4, !lr.dry && lr.pos%4 == 0
+}
+
+var c01RunLengths = []int{2, 3, 4, 5, 6, 7, 8, 9, 10, 11, 12, 13, 14, 15, 16, 17, 18, 19, 20, 24, 31, 32, 33, 48, 63, 64, 65, 100, 127, 128, 129, 200, 255, 256, 257, 500, 1000, 1024, 4096, 65536, 100000}
+
 func c01Bounds(tier string) []uint32 {
 	if tier == "quick" {
 		return []uint32{3, 1<<31 + 1, 2}
@@ -278,6 +325,26 @@ func c01Run(c *core.Ctx) {
 				}
 			}
 		}
+		// long runs of rejected words: every one must be redrawn, however many
+		if len(rej) > 0 {
+			for _, k := range c01RunLengths {
+				ws := make([]uint32, k+2)
+				for i := 0; i < k; i++ {
+					ws[i] = rej[(i*7)%len(rej)]
+				}
+				ws[k], ws[k+1] = sent, sent
+				got, used, ok := drawLong(n, ws, 0)
+				c.Count("continuation_runs", 1)
+				c.Count("long_reject_runs", 1)
+				if !ok || used != k+1 || got != sentRes {
+					c.Violation(fmt.Sprintf("n=%d long-run", n), fmt.Sprintf("%d rejected words followed by %#x: result %d after consuming %d words; every rejected word must be redrawn (expected %d after %d words)", k, sent, got, used, sentRes, k+1),
+						map[string]interface{}{"n": n, "rejected_run": k, "rejected_word": ws[0], "then": sent})
+					break
+				}
+			}
+		}
+		rd.reads = 0
+		rand.Reader = rd
 		if c.Shard == 0 {
 			c.Sample(map[string]interface{}{"n": n, "first_word_range": "0..2^32-1 (16 shards)", "sentinel_second_word": sent})
 		}
@@ -363,6 +430,19 @@ func c01Boundary(c *core.Ctx, draw func(n uint32, w0, w1, w2 uint32) (uint32, in
 			if tb != res || tbReads != reads {
 				c.Count("boundary_textbook_disagreements", 1)
 				c.Note("bound %d disagrees with the textbook sampler on word %#x: candidate for a full sweep", n, w)
+			}
+		}
+		// the draw must use all 32 bits of a word however the source chunks it
+		for _, w := range []uint32{0x01020304, 0xfffefdfc, 0x80000001, uint32(K*uint64(n)) - 1, 0x00010000, 0x00000100} {
+			want, used0, ok0 := drawLong(n, []uint32{w, 1, 1, 1}, 0)
+			for _, chunk := range []int{1, 2, 3} {
+				got, used, ok := drawLong(n, []uint32{w, 1, 1, 1}, chunk)
+				c.Count("boundary_runs", 1)
+				c.Count("chunked_draws", 1)
+				if ok0 && (!ok || got != want || used != used0) {
+					c.Violation(fmt.Sprintf("boundary n=%d chunked", n), fmt.Sprintf("word %#x delivered %d byte(s) per read gives %d (%d words used); delivered whole it gives %d (%d words)", w, chunk, got, used, want, used0),
+						map[string]interface{}{"n": n, "words": []uint32{w, 1, 1, 1}, "chunk": chunk})
+				}
 			}
 		}
 		c.Count("boundary_bounds", 1)
@@ -454,7 +534,7 @@ func init() {
 		ID:    "C01",
 		Level: "model_checking",
 		Rule: "for each bound n of the tier's list every one of the 2^32 values of the first random word is fed to the real randomUint32n via crypto/rand.Read on a scripted reader (second word: an accepted sentinel); " +
-			"a case is a (n, first word) pair, distinct_nontrivial counts distinct (n, per-outcome count, rejected) triples, one per fully swept bound; second layer: boundary word sets for every n<=2^12 (thorough 2^16) and 2^k±d",
+			"a case is a (n, first word) pair, distinct_nontrivial counts distinct (n, per-outcome count, rejected) triples, one per fully swept bound; runs of up to 100000 rejected words; second layer: boundary word sets and 1/2/3-byte chunked delivery for every n<=2^12 (thorough 2^16) and 2^k±d",
 		Assume:      []string{"go1.23.5 crypto/rand.Read = io.ReadFull(rand.Reader, b)", "uniformity is decided only for the bounds listed in coverage.notes; other bounds get the boundary layer (necessary conditions only)"},
 		Run:         c01Run,
 		Prepare:     c01Prepare,
